@@ -80,18 +80,39 @@ var compactHot = around([]int{1, 126, 127, 128, 472, 473, 474, 476, 478, 474 + 4
 // a few blob namespaces: all blob-valid (version 0, above the primary reserved range)
 func blobNamespaces(r *Rng, k int) [][]byte {
 	out := make([][]byte, k)
+	style := r.Intn(8)
+	var prefix [2]byte
+	copy(prefix[:], r.Bytes(2))
 	for i := range out {
 		ns := make([]byte, share.NamespaceSize)
 		// 10 user bytes at the end; make sure it is above 0x00..00FF
 		copy(ns[19:], r.Bytes(10))
-		if r.Bool(50) {
+		switch {
+		case style == 6:
+			// one shared 2-byte prefix, 8-byte tails at the extremes of the unsigned / signed 64-bit range
+			ns[19], ns[20] = prefix[0], prefix[1]
+			tails := [][]byte{{0, 0, 0, 0, 0, 0, 1, 0}, {0x7f, 0xff, 0xff, 0xff, 0xff, 0xff, 0xff, 0xff}, {0x80, 0, 0, 0, 0, 0, 0, 0},
+				{0xc0, 0, 0, 0, 0, 0, 0, 0}, {0xff, 0xff, 0xff, 0xff, 0xff, 0xff, 0xff, 0xfe}, {0, 0, 0, 0, 0x80, 0, 0, 1}}
+			copy(ns[21:], tails[r.Intn(len(tails))])
+			if ns[19]|ns[20] == 0 && ns[21]|ns[22]|ns[23]|ns[24]|ns[25]|ns[26]|ns[27] == 0 {
+				ns[20] = 1
+			}
+		case style == 7:
+			// user namespaces whose low bytes look like a reserved namespace (…0001 tx, …0002, …0004 pfb, …00ff),
+			// told apart from it only by the two highest user bytes
+			for j := 21; j < 28; j++ {
+				ns[j] = 0
+			}
+			ns[28] = []byte{1, 2, 4, 0xff}[r.Intn(4)]
+			ns[19], ns[20] = byte(r.Intn(3)), byte(1+r.Intn(3))
+		case r.Bool(50):
 			// small, clustered namespaces so that equal and adjacent ones occur
 			for j := 19; j < 27; j++ {
 				ns[j] = 0
 			}
 			ns[27] = byte(1 + r.Intn(3))
 			ns[28] = byte(r.Intn(4))
-		} else if ns[19]|ns[20]|ns[21]|ns[22]|ns[23]|ns[24]|ns[25]|ns[26]|ns[27] == 0 {
+		case ns[19]|ns[20]|ns[21]|ns[22]|ns[23]|ns[24]|ns[25]|ns[26]|ns[27] == 0:
 			ns[27] = 1
 		}
 		out[i] = ns
